@@ -86,11 +86,12 @@ class RefEmitter(object):
         self.e = {}
 
     def on(self, name, cb, ctx=None):
-        self.e.setdefault(name, []).append({'cb': cb, 'once': False, 'ctx': dict(ctx or {}), 'fired': False})
+        # the bound context is the object the subscriber passed (by reference: what it holds at delivery time counts)
+        self.e.setdefault(name, []).append({'cb': cb, 'once': False, 'ctx': ctx if ctx is not None else {}, 'fired': False})
         return self
 
     def once(self, name, cb, ctx=None):
-        self.e.setdefault(name, []).append({'cb': cb, 'once': True, 'ctx': dict(ctx or {}), 'fired': False})
+        self.e.setdefault(name, []).append({'cb': cb, 'once': True, 'ctx': ctx if ctx is not None else {}, 'fired': False})
         return self
 
     def off(self, name, cb=None):
@@ -174,7 +175,8 @@ class EmitterStep(Harness):
     functions = ('tinyemitter.Emitter.on', 'tinyemitter.Emitter.once', 'tinyemitter.Emitter.off', 'tinyemitter.Emitter.emit')
     bounds = 'two event names; <=3 listeners on the first, <=1 on the second (thorough: <=4 and <=2); callback identities symbolic in a pool of 3; ' \
              'contexts {k: symbolic int}; one operation with one re-entrant operation by one acting callback; plus, on selected shapes, a callback performing ' \
-             'two operations during delivery and two acting callbacks (re-entrancy two levels deep)'
+             'two operations during delivery and two acting callbacks (re-entrancy two levels deep); contexts registered empty and ' \
+             'filled by the host after subscription (the listener is bound to the object, not to a copy)'
     outside = ('listener lists longer than 3', 'callbacks raising exceptions', 'nesting deeper than 1')
 
     def cases(self, tier):
@@ -196,6 +198,9 @@ class EmitterStep(Harness):
         for a, b in deep_shapes:
             out.append({'a': a, 'b': b, 'mode': 'two_ops'})
             out.append({'a': a, 'b': b, 'mode': 'two_actors'})
+        # contexts registered EMPTY and filled by the host after subscription: the listener is bound to that object
+        for a, b in (('p', ''), ('o', ''), ('po', ''), ('pp', 'o'), ('op', 'p')):
+            out.append({'a': a, 'b': b, 'mode': 'one', 'late': 1})
         return out
 
     def build(self, e, p):
@@ -243,8 +248,13 @@ class EmitterStep(Harness):
             for name, shape in (('A', p['a']), ('B', p['b'])):
                 for kind in shape:
                     cb = Cb(inp['ids'][k], world)
-                    ctx = {'k': inp['ctxs'][k]}
-                    (em.on if kind == 'p' else em.once)(name, cb, ctx)
+                    if p.get('late'):
+                        ctx = {}
+                        (em.on if kind == 'p' else em.once)(name, cb, ctx)
+                        ctx['k'] = inp['ctxs'][k]
+                    else:
+                        ctx = {'k': inp['ctxs'][k]}
+                        (em.on if kind == 'p' else em.once)(name, cb, ctx)
                     k += 1
             apply_op(em, (opk, opname, inp['opcb'], inp['arg']), world)
             outs.append((world.log, real_state(em) if real else em.state()))
